@@ -29,6 +29,9 @@ VARIABLES sched, cfgv
 
 mcvars == <<vars, sched, cfgv>>
 View == <<sv_, IF GenMode /\ GenFail THEN Len(sched) ELSE 0>>
+\* transition cover: one BFS path per distinct (state, call that led to it), so that calls which lead to an
+\* already known state (no-op calls, self-transfers, alternative ways into a state) get a schedule too
+ViewEv == <<View, ev>>
 
 Users == Addr \ {"k1"}
 Payloads == {"p1"}
